@@ -158,40 +158,37 @@ structure ElfStream where
 /-- collect a whole table into a Vec (`.iter().collect()`) -/
 def collectAll {α} (t : Table α) : Out (List α) := t.iter.collect.1
 
+/-- read `shdr[0]` through the reader (range `[e_shoff, e_shoff + size)`) and project a field -/
+def streamShdr0 (h : FileHeader) (size : Nat) (proj : SectionHeader → Nat) (r : CachingReader) :
+    Out Nat × CachingReader :=
+  rbind (rlift (Out.ofOption .IntegerOverflow (checkedAdd h.t.e_shoff size)) r) fun end_ r =>
+  rbind (r.readBytes h.t.e_shoff end_) fun data r =>
+  match (SectionHeader.ep.parse h.little h.cls data 0).1 with
+  | .ok shdr0 => (.ok (proj shdr0), r)
+  | .err e => (.err e, r)
+  | .panic => (.panic, r)
+
+/-- read the located table `[off, off + entsize·n)` through the reader and collect its entries -/
+def streamTable {α} (mk : Slice → Table α) (off entsize n : Nat) (r : CachingReader) :
+    Out (List α) × CachingReader :=
+  rbind (rlift (Out.ofOption .IntegerOverflow (checkedMul entsize n)) r) fun size r =>
+  rbind (rlift (Out.ofOption .IntegerOverflow (checkedAdd off size)) r) fun end_ r =>
+  rbind (r.readBytes off end_) fun buf r =>
+  (collectAll (mk buf), r)
+
 def parseSectionHeaders (h : FileHeader) (r : CachingReader) : Out (List SectionHeader) × CachingReader :=
   if h.t.e_shoff = 0 then (.ok [], r) else
   rbind (rlift (SectionHeader.ep.validateEntsize h.cls h.t.e_shentsize) r) fun entsize r =>
-  let shoff := h.t.e_shoff
-  rbind (if h.t.e_shnum = 0 then
-      rbind (rlift (Out.ofOption .IntegerOverflow (checkedAdd shoff entsize)) r) fun end_ r =>
-      rbind (r.readBytes shoff end_) fun data r =>
-      match (SectionHeader.ep.parse h.little h.cls data 0).1 with
-      | .ok shdr0 => (.ok shdr0.sh_size, r)
-      | .err e => (.err e, r)
-      | .panic => (.panic, r)
-    else (.ok h.t.e_shnum, r)) fun shnum r =>
-  rbind (rlift (Out.ofOption .IntegerOverflow (checkedMul entsize shnum)) r) fun size r =>
-  rbind (rlift (Out.ofOption .IntegerOverflow (checkedAdd shoff size)) r) fun end_ r =>
-  rbind (r.readBytes shoff end_) fun buf r =>
-  (collectAll (shdrTable h buf), r)
+  rbind (if h.t.e_shnum = 0 then streamShdr0 h entsize SectionHeader.sh_size r
+         else (.ok h.t.e_shnum, r)) fun shnum r =>
+  streamTable (shdrTable h) h.t.e_shoff entsize shnum r
 
 def parseProgramHeaders (h : FileHeader) (r : CachingReader) : Out (List ProgramHeader) × CachingReader :=
   if h.t.e_phoff = 0 then (.ok [], r) else
-  rbind (if h.t.e_phnum = Abi.PN_XNUM then
-      let shoff := h.t.e_shoff
-      rbind (rlift (Out.ofOption .IntegerOverflow (checkedAdd shoff (SectionHeader.ep.size h.cls))) r) fun end_ r =>
-      rbind (r.readBytes shoff end_) fun data r =>
-      match (SectionHeader.ep.parse h.little h.cls data 0).1 with
-      | .ok shdr0 => (.ok shdr0.sh_info, r)
-      | .err e => (.err e, r)
-      | .panic => (.panic, r)
-    else (.ok h.t.e_phnum, r)) fun phnum r =>
+  rbind (if h.t.e_phnum = Abi.PN_XNUM then streamShdr0 h (SectionHeader.ep.size h.cls) SectionHeader.sh_info r
+         else (.ok h.t.e_phnum, r)) fun phnum r =>
   rbind (rlift (ProgramHeader.ep.validateEntsize h.cls h.t.e_phentsize) r) fun entsize r =>
-  let phoff := h.t.e_phoff
-  rbind (rlift (Out.ofOption .IntegerOverflow (checkedMul entsize phnum)) r) fun size r =>
-  rbind (rlift (Out.ofOption .IntegerOverflow (checkedAdd phoff size)) r) fun end_ r =>
-  rbind (r.readBytes phoff end_) fun buf r =>
-  (collectAll (phdrTable h buf), r)
+  streamTable (phdrTable h) h.t.e_phoff entsize phnum r
 
 /-- `ElfStream::open_stream`; on failure the (possibly advanced) device is returned for tracing. -/
 def openStream (sp : Spec) (dev : Device) : Out ElfStream × Device :=
